@@ -450,6 +450,107 @@ def whocalls(R, key, F, callee, allowed, crates=None, min_sites=1, what="", excl
     return ok
 
 
+def effect_sites(R, key, F, callee, table, arg=None, crates=None, what="", exclude_crates=("ckb_test", "ckb_benches", "ckb_test_chain_utils")):
+    """EFFECTSITES: count-aware who-may-call for a mutator of state the property protects. `table`: {caller-root regex: (reviewed number of
+    call sites, reason)}. A call site (optionally only those whose argument #arg[0] has a source matching arg[1]) must lie in a listed root and
+    the root must not have more sites than were reviewed. A site in an unlisted function is attributed to that function's callers (a helper that
+    was extracted): fine when every workspace caller of it, up to two levels up, is listed and the listed root's budget is not exceeded.
+    Additive slips ("also mark these blocks invalid", "also delete ...") have no lost fact; this is what sees them."""
+    sites = [c for c in F.callers(callee, crates) if c.body.crate not in exclude_crates]
+    if arg is not None:
+        sites = [c for c in sites if len(c.args) > arg[0] and src_match(c.body.operand_sources(c.args[arg[0]]), [arg[1]])]
+    R.sites += len(sites)
+    allow = [(rx(p), n, why, p) for p, (n, why) in table.items()]
+
+    def listed(path):
+        for p, n, why, raw in allow:
+            if p.search(path):
+                return raw
+        return None
+
+    def roots_of(path, depth):
+        """listed roots a function is (transitively) called from; None when some caller chain ends in an unlisted function"""
+        hit = listed(path)
+        if hit:
+            return {hit}
+        if depth == 0:
+            return None
+        cs = [c for c in F.callers("^" + re.escape(path) + "$") if c.body.crate not in exclude_crates]
+        if not cs:
+            return None
+        out = set()
+        for c in cs:
+            r = roots_of(c.body.root or c.body.path, depth - 1)
+            if r is None:
+                return None
+            out |= r
+        return out
+    count = {}
+    ok = True
+    for c in sites:
+        R.fn(c.body)
+        root = c.body.root or c.body.path
+        rs = roots_of(root, 2)
+        if rs is None:
+            R.bad("%s/%s" % (key, short(root)), "%s: %s is called from %s (%s); the reviewed call sites are in %s" % (
+                what or "effect sites", label(callee), c.body.path, c.where(), ", ".join(short(raw.strip("^$").replace("\\", "")) for _, _, _, raw in allow)), [c.where()])
+            ok = False
+            continue
+        for r in (rs if listed(root) is None else {listed(root)}):
+            count.setdefault(r, []).append(c)
+    for p, n, why, raw in allow:
+        have = count.get(raw, [])
+        if len(have) > n:
+            R.bad("%s/%s/more-sites" % (key, short(raw.strip("^$").replace("\\", ""))), "%s: %s has %d call sites of %s, %d were reviewed (%s): a new place changes this state" % (
+                what or "effect sites", raw, len(have), label(callee), n, why), [c.where() for c in have])
+            ok = False
+    if not sites and any(n for _, n, _, _ in allow):
+        R.bad(key + "/anchor-lost", "%s: no call site of %s found" % (what or "effect sites", label(callee)), [])
+        return False
+    if ok:
+        R.ok(key, "%s: %d call sites of %s, all in reviewed places and none beyond the reviewed number" % (what or "effect sites", len(sites), label(callee)), [c.where() for c in sites[:6]])
+    return ok
+
+
+def panicking_arith(body, ops=("Add", "Sub", "Mul", "Shl", "Shr"), widths=r"\b[iu](64|128|size|32)\b"):
+    """NOOVERFLOW: (op, destination type, line) of every overflow-checked arithmetic statement of the body (and nested closures): `a + b`
+    on integers is `AddWithOverflow` + Assert in mir_built of a profile with overflow checks (dev, and ckb's release profile sets
+    overflow-checks = true), and a shift is `Shl`/`Shr` with an Assert on the shift amount. Used only for functions whose operands are chosen
+    by a peer / a transaction author (a panic there is a remote crash): the rule demands checked / saturating / wider arithmetic instead."""
+    out = []
+    for b in [body] + list(body.nested()):
+        locs = b.rec.get("locals") or []
+        for blk in b.blocks:
+            for st in blk["s"]:
+                rv = st[1]
+                if rv.get("k") != "bin":
+                    continue
+                op = str(rv.get("op", ""))
+                base = op.replace("WithOverflow", "").replace("Unchecked", "")
+                if base not in ops:
+                    continue
+                ty = str(locs[st[0][0]]) if st[0][0] < len(locs) else "?"
+                if not re.search(widths, ty):
+                    continue
+                if base in ("Add", "Sub", "Mul") and "WithOverflow" not in op:
+                    continue      # wrapping form emitted for pointer / index arithmetic without a check
+                out.append((op, ty, "%s:%s" % (b.file, st[2] if len(st) > 2 else "?")))
+    return out
+
+
+def no_panicking_arith(R, key, bodies, ops, what, allow=0):
+    """no (more than `allow`) overflow-checked `ops` in the given bodies"""
+    found = []
+    for b in bodies:
+        R.fn(b)
+        found += panicking_arith(b, ops)
+    R.sites += len(found) + len(bodies)
+    if len(found) > allow:
+        return R.bad(key, "%s: %d panicking arithmetic operation(s) on attacker-chosen operands (%s); use checked / saturating arithmetic" % (
+            what, len(found), ", ".join("%s -> %s" % (o, t) for o, t, _ in found[:4])), [w for _, _, w in found[:6]])
+    return R.ok(key, "%s: no overflow-checked %s in %s" % (what, "/".join(ops), ", ".join(short(b.path) for b in bodies)), [b.where() for b in bodies])
+
+
 def short(path):
     parts = path.split("::")
     return "::".join(parts[-2:])
